@@ -134,6 +134,7 @@ impl Inject for NamingActor {
         self.namespace_actor = factory_data.get_actor();
         self.meta_manager_addr = factory_data.get_actor();
         self.namespace_index.namespace_actor = self.namespace_actor.clone();
+        self.namespace_index.announce_all_namespaces();
         let sys_config: Option<Arc<AppSysConfig>> = factory_data.get_bean();
         if let Some(sys_config) = sys_config {
             self.sys_config.instance_health_timeout_millis =
